@@ -799,3 +799,20 @@ package core
 //@   ensures @wf forall x *core.Node :: (x.postnodes == nil || alloc(x.postnodes)) && (x.prenodes == nil || alloc(x.prenodes))
 //@   loop 1 invariant forall x *core.Node, y *core.Node :: x.postnodes == nil || x.postnodes != y.prenodes
 //@   loop 1 invariant forall x *core.Node :: (x.postnodes == nil || alloc(x.postnodes)) && (x.prenodes == nil || alloc(x.prenodes))
+
+// ---------------------------------------------------------------- C05 a reset node re-reads its state
+// Ghost event: nodeloads[n] counts Node.loadMetadata calls on n.  A successful reset (full
+// or partial) ends by reloading the node's metadata, so that the node's cached state is the
+// state after the reset (a node that was failed before is not still seen as failed).
+//@ func core.Node.loadMetadata property C05
+//@   trusted
+//@   modifies ghost(nodeloads)
+//@   ensures ghost(nodeloads)[self] == old(ghost(nodeloads)[self]) + 1
+//@   ensures forall n *core.Node :: n != self ==> ghost(nodeloads)[n] >= old(ghost(nodeloads)[n])
+
+//@ func core.Node.reset property C05
+//@   requires self != nil && self.top != nil && self.top.rt != nil && self.top.rt.Config != nil
+//@   ensures @reloaded isnil(result) ==> ghost(nodeloads)[self] > old(ghost(nodeloads)[self])
+//@   loop 1 invariant ghost(nodeloads)[self] >= old(ghost(nodeloads)[self])
+//@   loop 2 invariant ghost(nodeloads)[self] >= old(ghost(nodeloads)[self])
+//@   loop 3 invariant ghost(nodeloads)[self] >= old(ghost(nodeloads)[self])
